@@ -81,6 +81,8 @@ _SCOPE_TEXT = ("Bounded symbolic model checking of the real CancelScope code (__
 _SCOPE_NOTE = "Trusted: z3, CrossHair, CPython's C Task/Future, VLoop stubs, the reference semantics. Outside: depth >3, more than 2 cancels + 1 toggle, non-integer times, uvloop, trio."
 REGISTRY["C03"] = {"harnesses": ["symx.harness.c03_level"], "level": "model_checking", "text": _SCOPE_TEXT + "C03 clauses: liveness (no deadlock), every checkpoint in an effectively cancelled scope raises, delivery latency <= 4 cycles, re-delivery after a swallowed cancellation.", "note": _SCOPE_NOTE}
 REGISTRY["C04"] = {"harnesses": ["symx.harness.c04_contain"], "level": "model_checking", "text": _SCOPE_TEXT + "C04 clauses: an operation is interrupted only while its scope is effectively cancelled; absorb iff own cancel and no visible cancelled ancestor; cancelled_caught exact.", "note": _SCOPE_NOTE}
+REGISTRY["C05"] = {"harnesses": ["symx.harness.c05_residue"], "level": "model_checking", "text": _SCOPE_TEXT + "C05 clauses: Task.cancelling() restored (also after 1-4 re-deliveries and counts handed to a cancelled parent), later awaits undisturbed, asyncio.timeout after the scopes behaves, loop idle after the program (no live timer / busy callback).", "note": _SCOPE_NOTE}
+REGISTRY["C06"] = {"harnesses": ["symx.harness.c06_deadline"], "level": "model_checking", "text": _SCOPE_TEXT + "C06 clauses: deadline fires iff due while active, at exactly the due tick, re-armed on assignment, never after exit; move_on_*/fail_* report exactly their own deadline; current_effective_deadline() equals the closed form at every operation.", "note": _SCOPE_NOTE}
 
 NOT_APPLICABLE = {
     "C17": "TLS record framing/fragmentation/truncation happens inside OpenSSL (ssl.SSLObject/MemoryBIO, C code): no available engine can execute it symbolically, and a stub would make the check a statement about the stub (DESIGN.md section 3, C17).",
